@@ -1,10 +1,12 @@
 """C07 — block durations and the block timeline are consistent everywhere."""
 import copy
+import math
 import os
 import re
 import tempfile
 import warnings
 from fractions import Fraction
+from types import SimpleNamespace
 
 import numpy as np
 
@@ -53,7 +55,7 @@ ASSUMPTIONS = ['all generated times are integer multiples of their raster (the p
                'delays and lengths)']
 
 
-INT_US = ('siemens', 'ge', 'g20')     # raster families whose event times are whole microseconds
+INT_US = ('siemens', 'ge', 'g20', 'b10g5', 'b20g10')     # raster families whose event times are whole microseconds
 
 
 def tol(x):
@@ -72,17 +74,38 @@ def nearest_dist(sorted_arr, x):
     return min(c)
 
 
+WARM = ['get_block', 'get_block', 'waveforms', 'check_timing', 'calc_duration', 'none']
+
+
 def gen_case(rng):
+    import pypulseq as pp
     s = tg.gen_system(rng)
     opts = tg.make_opts(s)
     nb = rng.randint(1, 9)
     padded = rng.random() < 0.6
-    blocks = [tg.gen_block(rng, s, opts, pad=padded or rng.random() < 0.3, p_rf=0.45, p_g=0.45, p_adc=0.4) for _ in range(nb)]
+    blocks = [tg.gen_block(rng, s, opts, pad=padded or rng.random() < 0.3, p_rf=0.45, p_g=0.45, p_adc=0.4, p_empty=0.12)
+              for _ in range(nb)]
+    for b in blocks:
+        # events handed over by pre-registered library id (set_block then takes the id and registers nothing)
+        b['ids'] = rng.random() < 0.3
     case = {'sys': s, 'alt': None, 'blocks': blocks, 'set_blocks': [], 'padded': padded}
-    if rng.random() < 0.4:
+    if rng.random() < 0.5:
         for _ in range(rng.randint(1, 3)):
             idx = rng.randint(1, nb)
-            case['set_blocks'].append([idx, tg.gen_block(rng, s, opts, pad=padded or rng.random() < 0.3)])
+            warm = [rng.choice(WARM) for _ in range(rng.randint(1, 2))]
+            if rng.random() < 0.5:
+                # same events, only the padding delay (hence only the duration) changes
+                cur = blocks[idx - 1]
+                for e2 in case['set_blocks']:
+                    if e2[0] == idx and 'events' in e2[1]:
+                        cur = e2[1]
+                built = [tg.build_event(e, opts, opts) for e in cur['events'] if e['k'] not in ('delay', 'label')]
+                d = F(pp.calc_duration(*built)) if built else Fraction(0)
+                br = F(s['block'])
+                k = max(1, math.ceil(d / br - Fraction(1, 10 ** 6))) + rng.choice([2, 3, 20])
+                case['set_blocks'].append([idx, {'repad': tg.fl(k * br)}, warm])
+            else:
+                case['set_blocks'].append([idx, tg.gen_block(rng, s, opts, pad=padded or rng.random() < 0.3, p_empty=0.1), warm])
     if not padded and rng.random() < 0.5:
         # a plain float as block argument (explicit delay), raster-aligned
         b = rng.choice(blocks)
@@ -92,9 +115,50 @@ def gen_case(rng):
 
 def final_blocks(case):
     fb = [copy.deepcopy(b) for b in case['blocks']]
-    for idx, b in case['set_blocks']:
-        fb[idx - 1] = copy.deepcopy(b)
+    for ent in case['set_blocks']:
+        idx, b = ent[0], ent[1]
+        if 'repad' in b:
+            nb_ = copy.deepcopy(fb[idx - 1])
+            nb_['events'] = [e for e in nb_['events'] if e['k'] != 'delay'] + [{'k': 'delay', 'delay': b['repad'], 'alt': False, 'set': {}}]
+            nb_.pop('float', None)
+            fb[idx - 1] = nb_
+        else:
+            fb[idx - 1] = copy.deepcopy(b)
     return fb
+
+
+def give_ids(seq, evs):
+    """register the events first and hand them to add_block / set_block by id"""
+    for e in evs:
+        if isinstance(e, float) or hasattr(e, 'id'):
+            continue
+        if e.type == 'rf':
+            e.id = seq.register_rf_event(e)[0]
+        elif e.type == 'grad':
+            e.id = seq.register_grad_event(e)[0]
+        elif e.type == 'trap':
+            e.id = seq.register_grad_event(e)
+        elif e.type == 'adc':
+            e.id = seq.register_adc_event(e)
+
+
+def warm_up(seq, actions):
+    """consumers that decode blocks (and fill the block cache) before a block is overwritten"""
+    import pypulseq as pp
+    for a in actions:
+        try:
+            if a == 'get_block':
+                for i in seq.block_events:
+                    seq.get_block(i)
+            elif a == 'waveforms':
+                seq.waveforms_and_times()
+            elif a == 'check_timing':
+                seq.check_timing()
+            elif a == 'calc_duration':
+                for i in seq.block_events:
+                    pp.calc_duration(seq.get_block(i))
+        except Exception:  # noqa: BLE001
+            pass
 
 
 def build(case):
@@ -106,12 +170,23 @@ def build(case):
         warnings.simplefilter('ignore')
         for i, b in enumerate(case['blocks']):
             evs = [tg.build_event(e, opts, opts) for e in b['events']]
+            if b.get('ids'):
+                give_ids(seq, evs)
             if b.get('float') is not None:
                 evs.append(float(b['float']))
             seq.add_block(*evs)
             inputs[i + 1] = evs
-        for idx, b in case['set_blocks']:
-            evs = [tg.build_event(e, opts, opts) for e in b['events']]
+        for ent in case['set_blocks']:
+            idx, b = ent[0], ent[1]
+            warm_up(seq, ent[2] if len(ent) > 2 else [])
+            if 'repad' in b:
+                # the very same event objects (with their ids when they have some) and another explicit delay
+                evs = [e for e in inputs[idx] if not isinstance(e, float) and e.type != 'delay']
+                evs.append(SimpleNamespace(type='delay', delay=float(b['repad'])))
+            else:
+                evs = [tg.build_event(e, opts, opts) for e in b['events']]
+                if b.get('ids'):
+                    give_ids(seq, evs)
             seq.set_block(idx, *evs)
             inputs[idx] = evs
     return seq, inputs
@@ -278,27 +353,36 @@ def evaluate(ctx, case, do_kspace=False):
     except Exception as e:  # noqa: BLE001
         fails.append(('waveforms_and_times-raises', {'exception': repr(e)}))
         wd = None
-    # time_range variants: everything inside the window must be returned with the same times
-    if len(ids) >= 2:
+    # time_range variants: every block that overlaps the window is returned, on the SAME time axis as without a window
+    if float(total) > 0:
         r = ctx_rng(case)
-        a = float(total) * r.uniform(0.05, 0.6)
-        b = a + float(total) * r.uniform(0.05, 0.4)
-        try:
-            ta, _ = seq.adc_times(time_range=[a, b])
-            te, _, tr_, _ = seq.rf_times(time_range=[a, b])
-            ftol = float(tol(scale))
-            for name, got, full in (('adc', list(ta), adc), ('rf-exc', list(te), rfx), ('rf-ref', list(tr_), rfr)):
-                gv = np.sort(np.asarray(got, dtype=float))
-                fv = np.sort(np.asarray([float(x) for x in full], dtype=float))
-                inside = fv[(fv > a + 4 * ftol) & (fv < b - 4 * ftol)]
-                miss = [x for x in inside if nearest_dist(gv, x) > ftol]
-                if miss:
-                    fails.append(('time_range-' + name + '-missing', {'time': miss[0], 'range': [a, b]}))
-                shifted = [g for g in gv if nearest_dist(fv, g) > ftol]
-                if shifted:
-                    fails.append(('time_range-' + name + '-shifted', {'time': shifted[0], 'range': [a, b]}))
-        except Exception as e:  # noqa: BLE001
-            fails.append(('time_range-raises', {'exception': repr(e)}))
+        T = float(total)
+        first = float(stored[ids[0]])
+        a = T * r.uniform(0.05, 0.6)
+        wins = [[0.0, T * r.uniform(0.2, 1.0)], [min(first, T) * r.choice([1e-3, 0.3]), T * r.uniform(0.3, 1.0)],
+                [0.0, first * 0.5], [a, a + T * r.uniform(0.05, 0.4)], [a, T]]
+        ftol = float(tol(scale))
+        for a, b in wins[:5 if len(ids) >= 2 else 3]:
+            try:
+                ta, _ = seq.adc_times(time_range=[a, b])
+                te, _, tr_, _ = seq.rf_times(time_range=[a, b])
+                wdt = seq.waveforms(time_range=[a, b])
+                series = [('adc', list(ta), adc), ('rf-exc', list(te), rfx), ('rf-ref', list(tr_), rfr)]
+                for j, ch in enumerate(('gx', 'gy', 'gz')):
+                    series.append(('wave-' + ch, list(np.real(wdt[j][0])), axes[ch]))
+                for name, got, full in series:
+                    gv = np.sort(np.asarray(got, dtype=float))
+                    fv = np.sort(np.asarray([float(x) for x in full], dtype=float))
+                    inside = fv[(fv > a + 4 * ftol) & (fv < b - 4 * ftol)]
+                    miss = [x for x in inside if nearest_dist(gv, x) > ftol]
+                    if miss:
+                        fails.append(('time_range-' + name + '-missing', {'time': miss[0], 'range': [a, b]}))
+                    shifted = [g for g in gv if nearest_dist(fv, g) > ftol]
+                    if shifted:
+                        fails.append(('time_range-' + name + '-shifted', {'time': shifted[0], 'range': [a, b]}))
+                ctx.count('time_range.windows')
+            except Exception as e:  # noqa: BLE001
+                fails.append(('time_range-raises', {'exception': repr(e), 'range': [a, b]}))
     # calculate_kspace time outputs
     if do_kspace:
         try:
